@@ -75,12 +75,18 @@ func newInlEnv(info *types.Info, body *ast.BlockStmt, up *inlEnv, site *ast.Call
 // functions and local closures it calls (three levels deep; function literals are read where they are called, not where
 // they are written).
 func walkInlined(p *Prog, pk *packages.Package, env *inlEnv, depth int, active map[*ast.BlockStmt]bool, seq *int, visit func(inlSite)) {
+	walkInlined2(p, pk, env, depth, active, seq, func(*inlEnv) {}, visit)
+}
+
+// walkInlined2 also reports every frame as it is entered.
+func walkInlined2(p *Prog, pk *packages.Package, env *inlEnv, depth int, active map[*ast.BlockStmt]bool, seq *int, enter func(*inlEnv), visit func(inlSite)) {
 	info := pk.TypesInfo
 	if active[env.body] {
 		return
 	}
 	active[env.body] = true
 	defer delete(active, env.body)
+	enter(env)
 	ast.Inspect(env.body, func(n ast.Node) bool {
 		if _, isLit := n.(*ast.FuncLit); isLit {
 			return false
@@ -118,7 +124,7 @@ func walkInlined(p *Prog, pk *packages.Package, env *inlEnv, depth int, active m
 							sub[info.Defs[hd.Recv.List[0].Names[0]]] = sel.X
 						}
 					}
-					walkInlined(p, pk, newInlEnv(info, hd.Body, env, call, sub, nil), depth+1, active, seq, visit)
+					walkInlined2(p, pk, newInlEnv(info, hd.Body, env, call, sub, nil), depth+1, active, seq, enter, visit)
 				}
 			}
 			return true
@@ -137,7 +143,7 @@ func walkInlined(p *Prog, pk *packages.Package, env *inlEnv, depth int, active m
 							i++
 						}
 					}
-					walkInlined(p, pk, newInlEnv(info, lit.Body, env, call, sub, env), depth+1, active, seq, visit)
+					walkInlined2(p, pk, newInlEnv(info, lit.Body, env, call, sub, env), depth+1, active, seq, enter, visit)
 				}
 			}
 		}
@@ -146,7 +152,10 @@ func walkInlined(p *Prog, pk *packages.Package, env *inlEnv, depth int, active m
 }
 
 // poly evaluates e, written in this frame, in its resolved normal form over the whole chain of frames.
-func (e *inlEnv) poly(x ast.Expr) (Poly, bool) {
+func (e *inlEnv) poly(x ast.Expr) (Poly, bool) { return e.polyStop(x, nil) }
+
+// polyStop is poly with some locals (loop variables) kept as they are written.
+func (e *inlEnv) polyStop(x ast.Expr, stop map[string]bool) (Poly, bool) {
 	defs := map[types.Object]localDef{}
 	args := map[types.Object]ast.Expr{}
 	ri := &reachInfo{defs: map[types.Object][]reachDef{}, parents: map[ast.Node]ast.Node{}, addr: map[types.Object]bool{}}
@@ -174,7 +183,25 @@ func (e *inlEnv) poly(x ast.Expr) (Poly, bool) {
 	savedA, savedR, savedP := polyArgs, polyReach, polyPaths
 	polyArgs, polyReach, polyPaths = args, ri, true
 	defer func() { polyArgs, polyReach, polyPaths = savedA, savedR, savedP }()
-	return exprPoly(e.info, x, defs, nil, 0)
+	return exprPoly(e.info, x, defs, stop, 0)
+}
+
+// walkInlinedNodes visits every node of the frame's body and, in place, of the bodies of the same-package functions and
+// local closures called from it (three levels deep), each with its frame.
+func walkInlinedNodes(p *Prog, pk *packages.Package, env *inlEnv, visit func(n ast.Node, env *inlEnv)) {
+	seq := 0
+	walkInlined2(p, pk, env, 0, map[*ast.BlockStmt]bool{}, &seq, func(fr *inlEnv) {
+		ast.Inspect(fr.body, func(n ast.Node) bool {
+			if n == nil {
+				return false
+			}
+			if _, isLit := n.(*ast.FuncLit); isLit {
+				return false // read where it is called
+			}
+			visit(n, fr)
+			return true
+		})
+	}, func(inlSite) {})
 }
 
 // resolve follows x through conversions, parentheses, address-of, locals with one reaching definition and parameters
@@ -287,6 +314,24 @@ func (s inlSite) facts() []inlFact {
 	for fr := s.env; fr != nil; fr = fr.up {
 		for _, f := range pathFactsAt(fr.parents, node) {
 			out = append(out, inlFact{f, fr})
+		}
+		node = fr.site
+	}
+	return out
+}
+
+// conds: every boolean leaf that holds (or not) whenever control reaches the site, in every frame of its chain.
+type inlCond struct {
+	pathCond
+	env *inlEnv
+}
+
+func (s inlSite) conds() []inlCond {
+	var out []inlCond
+	var node ast.Node = s.call
+	for fr := s.env; fr != nil; fr = fr.up {
+		for _, f := range pathCondsAt(fr.parents, node) {
+			out = append(out, inlCond{f, fr})
 		}
 		node = fr.site
 	}
